@@ -51,11 +51,14 @@ def rand_base(rng):
         b["paths"] = {"/legacy": {"get": {"responses": {"200": {"description": "ok"}}}}}
     else:
         b["paths"] = {}
+    legacy_ref = b["paths"] and rng.random() < 0.5
     if rng.random() < 0.8:
         c = {}
         if rng.random() < 0.6:
             c["schemas"] = {"Legacy": rand_schema(rng, 0) if rng.random() < 0.5 else {"type": "string"},
                             "Other": {"type": "integer"}}
+            if legacy_ref:      # a closed base: its own path refers to its own schema (both are replaced by the program's)
+                b["paths"]["/legacy"]["get"]["responses"]["200"]["content"] = {"application/json": {"schema": {"$ref": "#/components/schemas/Legacy"}}}
         if rng.random() < 0.6:
             c["securitySchemes"] = {"key": {"type": "apiKey", "name": "X-Key", "in": "header"}}
         if rng.random() < 0.4:
